@@ -111,6 +111,11 @@ def _is_pow2(d):
 REPORT_ONLY = {'gnm_structure', 'doped_isolated_nodes', 'capacity_float'}
 
 
+# the CQM and the instance data of the last knapsack / bin packing / multi-knapsack case, for the Coq-side
+# evaluation assembled in w_c17.py
+LAST = {}
+
+
 class Fails:
     def __init__(self):
         self.items = []
@@ -526,6 +531,7 @@ def _run_knapsack(c):
             fails.add('data', f"model encodes values {observed['values']}, weights {observed['weights']}, capacity {rc}; "
                       f"given {c['values']}, {c['weights']}, {c['capacity']}")
         sv, sw, sc = vals, wts, cap
+    LAST.update(kind='knapsack', cqm=cqm, values=sv, weights=sw, capacity=(rc if c['mode'] == 'random' else cap))
     # --- documented condition on all (or sampled) assignments
     D = _lcm(sv + sw + [sc])
     vD = np.array([int(a * D) for a in sv], dtype=np.int64)
@@ -647,6 +653,7 @@ def _run_binpacking(c):
         if rw != wts or rc != cap:
             fails.add('data', f"model encodes weights {observed['weights']}, capacity {rc}; given {c['weights']}, {c['capacity']}")
         sw, sc = wts, cap
+    LAST.update(kind='binpacking', cqm=cqm, weights=sw, capacity=sc)
     feats["zero_weight"] = any(w == 0 for w in sw)
     D = _lcm(sw + [sc])
     wD = np.array([int(a * D) for a in sw], dtype=np.int64)
@@ -814,6 +821,7 @@ def _run_multiknapsack(c):
         if rv != vals or rw != wts or rc != caps:
             fails.add('data', f"model encodes {observed}; given {c['values']}, {c['weights']}, {c['capacities']}")
         sv, sw, sc = vals, wts, caps
+    LAST.update(kind='multiknapsack', cqm=cqm, values=sv, weights=sw, capacities=sc)
     D = _lcm(sv + sw + sc)
     vD = np.array([int(a * D) for a in sv], dtype=np.int64)
     wD = np.array([int(a * D) for a in sw], dtype=np.int64)
